@@ -123,6 +123,10 @@ def variants(params: List[Dict[str, Any]]) -> Iterator[Dict[str, Any]]:
                     yield {'params': cand, 'flavour': 'func', 'excluded': excluded, 'view_ctx': False, 'twice': 'plain-first'}
         n_before_ko = len([p for p in ps if p['kind'] == 'PK'])
         yield {'params': ps[:n_before_ko] + [{'name': 'ctx', 'kind': 'KO', 'ctx': True}] + ps[n_before_ko:], 'flavour': 'func', 'excluded': excluded, 'view_ctx': False}
+        if ps and ps[0]['name'] == 'p0':
+            # a client parameter whose name is contained in the context parameter's name ('t' in 'ctx')
+            rn = [{**ps[0], 'name': 't'}] + ps[1:]
+            yield {'params': rn[:n_before_ko] + [{'name': 'ctx', 'kind': 'KO', 'ctx': True}] + rn[n_before_ko:], 'flavour': 'func', 'excluded': excluded, 'view_ctx': False}
         yield {'params': ps, 'flavour': 'view', 'excluded': excluded, 'view_ctx': True}
         yield {'params': ps, 'flavour': 'view', 'excluded': excluded, 'view_ctx': False}
 
@@ -145,7 +149,7 @@ class C17(Check):
     chunk = 150
     rule = (
         "cases: (a) enumerated: every signature of <= 2 (quick) / <= 3 (thorough) parameters over positional-or-keyword / keyword-only x with / "
-        "without defaults (JSON values and non-JSON-serialisable sentinel objects), x context parameter designations (none, by name at each positional position, keyword-only, view constructor) x "
+        "without defaults (JSON values and non-JSON-serialisable sentinel objects), x context parameter designations (none, by name at each positional position, keyword-only, view constructor; also next to a client parameter whose name is contained in the context name) x "
         "exclusion predicate off / by name prefix / by missing annotation (an extra defaulted 'dep_' parameter, excluded in the extractor and in the validator) x function / view "
         "method, x the same function registered a second time without context designation (probed in both orders), x a leading positional-only parameter with a default (no parameter of a params object: never documented, never settable by name); (b) Hypothesis: signatures of up to 4 parameters with annotations. For each: the OpenAPI request schema and the OpenRPC params "
         "list are generated with PydanticSchemaExtractor, and ALL params objects over subsets of (documented names + one undocumented name + "
